@@ -221,6 +221,10 @@ impl Index for HnswIndex {
         // Reranking from a larger candidate set improves recall.
         let search_k = if is_manhattan { k * 4 } else { k };
         let raw_results = inner.hnsw.search(&prepared_query, search_k, ef_search);
+        #[cfg(inputlayer_verif)]
+        VERIF_LAST_RAW.with(|r| {
+            *r.borrow_mut() = raw_results.iter().map(|n| (n.d_id, n.distance)).collect();
+        });
 
         // Map internal indices to tuple IDs using the stored mapping
         let mut results: Vec<(TupleId, f64)> = if is_manhattan {
@@ -449,6 +453,31 @@ impl Index for HnswIndex {
 
     fn as_any(&self) -> &dyn std::any::Any {
         self
+    }
+}
+
+// Verification accessors (compiled only with `--cfg inputlayer_verif`; read-only).
+#[cfg(inputlayer_verif)]
+thread_local! {
+    static VERIF_LAST_RAW: std::cell::RefCell<Vec<(usize, f32)>> =
+        const { std::cell::RefCell::new(Vec::new()) };
+}
+
+#[cfg(inputlayer_verif)]
+impl HnswIndex {
+    /// `(internal index, L2 distance)` pairs hnsw_rs returned to the last `search` on this thread.
+    pub fn verif_last_raw() -> Vec<(usize, f32)> {
+        VERIF_LAST_RAW.with(|r| r.borrow().clone())
+    }
+
+    /// Tuple ids of the points in the inner graph, in internal index order (`None` = no graph).
+    pub fn verif_inner_ids(&self) -> Option<Vec<TupleId>> {
+        self.inner.read().as_ref().map(|h| h.index_to_tuple_id.clone())
+    }
+
+    /// Vectors the inner graph was built from, in internal index order.
+    pub fn verif_inner_vectors(&self) -> Option<Vec<Vec<f32>>> {
+        self.inner.read().as_ref().map(|h| h._storage.as_ref().clone())
     }
 }
 
